@@ -93,6 +93,10 @@ class Runaway(Exception):
 
 HARD_CAP = 150000
 
+# the defaults the project documents for its configuration classes (docs/ and the class docstrings)
+DOCUMENTED_DEFAULTS = {"medium": {"transmission_range": 60, "delay": 0, "failure_rate": 0},
+                       "mobility": {"update_rate": 0.01, "default_speed": 10, "reference_coordinates": (0, 0, 0)}}
+
 
 class Recorder:
     """Collects the implementation's observations in the driver's trace format."""
@@ -407,15 +411,25 @@ def make_handler(rec, label, cfg, sampler):
             medium.delay = rec.secs(cfg["delay"])
             medium.failure_rate = bitsf(cfg["failRate"])
             return handler
-        medium = CommunicationMedium(transmission_range=bitsf(cfg["defaultRange"]),
-                                     delay=rec.secs(cfg["delay"]),
-                                     failure_rate=bitsf(cfg["failRate"]))
+        kw = dict(transmission_range=bitsf(cfg["defaultRange"]), delay=rec.secs(cfg["delay"]),
+                  failure_rate=bitsf(cfg["failRate"]))
+        if rec.scn.get("useDefaults"):
+            # scenario flag useDefaults: what equals the DOCUMENTED default (range 60, no delay, no loss) is left
+            # to the default instead of being passed
+            for k, dv in DOCUMENTED_DEFAULTS["medium"].items():
+                if kw[k] == dv and not (kw[k] == 0 and str(kw[k]).startswith("-")):
+                    del kw[k]
+        medium = CommunicationMedium(**kw)
         return cls(medium)
     if label == "mobility" and cfg["hasMob"]:
         cls = _leaf(_mk("RecMobilityHandler", (MobilityHandler,), hooks), "RecMobilityHandler", lh)
-        conf = MobilityConfiguration(update_rate=bitsf(cfg["dtS"]),
-                                     default_speed=bitsf(cfg["defaultSpeed"]),
-                                     reference_coordinates=bitsv3(cfg["refGeo"]))
+        kw = dict(update_rate=bitsf(cfg["dtS"]), default_speed=bitsf(cfg["defaultSpeed"]),
+                  reference_coordinates=tuple(bitsv3(cfg["refGeo"])))
+        if rec.scn.get("useDefaults"):
+            for k, dv in DOCUMENTED_DEFAULTS["mobility"].items():
+                if kw[k] == dv and "-0.0" not in repr(kw[k]):
+                    del kw[k]
+        conf = MobilityConfiguration(**kw)
         return cls(conf)
 
     class Generic(INodeHandler):
